@@ -61,7 +61,7 @@ def cases(draw, tier):
     error = draw(st.sampled_from([None] * 6 + ["untagged", "untagged-allowed", "weight-4d", "no-lr"]))
     c = dict(params=params, lr=lr, lr_kind=draw(st.sampled_from(["float", "float", "tensor32", "tensor64"])), layout=layout, opt=opt,
              error=error, group_lrs=[draw(st.floats(1e-6, 10.0).map(lambda v: float(f"{v:.6g}"))) for _ in range(n)],
-             split=draw(st.integers(1, n)))
+             split=draw(st.integers(1, n)), lr_positional=draw(st.integers(0, 3)) == 0)
     if error in ("untagged", "untagged-allowed"):
         c["bad_index"] = draw(st.integers(0, n - 1))
     if error == "weight-4d":
@@ -132,16 +132,20 @@ def run(c) -> CaseResult:
         if opt.startswith("sp-"):
             fn = {"sp-adam": uo.lr_scale_func_adam, "sp-sgd-none": uo.lr_scale_func_sgd(None),
                   "sp-sgd-output": uo.lr_scale_func_sgd("to_output_scale")}[opt]
+            if c.get("lr_positional") and global_lr is not None:
+                return list(uo.scaled_parameters(arg, fn, global_lr, **kw)), None
             return list(uo.scaled_parameters(arg, fn, lr=global_lr, **kw)), None
-        lrkw = {} if global_lr is None else dict(lr=global_lr)
+        # the learning rate by keyword or as the second positional argument (the signature of torch's own optimizers)
+        lrpos = [global_lr] if (c.get("lr_positional") and global_lr is not None) else []
+        lrkw = {} if (global_lr is None or lrpos) else dict(lr=global_lr)
         if opt.startswith("SGD"):
-            o = uo.SGD(arg, readout_constraint=None if opt == "SGD-none" else "to_output_scale", **lrkw, **kw)
+            o = uo.SGD(arg, *lrpos, readout_constraint=None if opt == "SGD-none" else "to_output_scale", **lrkw, **kw)
         elif opt == "Adam":
-            o = uo.Adam(arg, **lrkw, **kw)
+            o = uo.Adam(arg, *lrpos, **lrkw, **kw)
         else:
-            o = uo.AdamW(arg, **lrkw, **kw)
+            o = uo.AdamW(arg, *lrpos, **lrkw, **kw)
         return o.param_groups, o
-    res.labels += [f"opt={opt}", f"layout={layout}", f"lr={c['lr_kind']}", f"error={c['error']}"]
+    res.labels += [f"opt={opt}", f"layout={layout}", f"lr={c['lr_kind']}", f"error={c['error']}"] + (["lr-positional"] if c.get("lr_positional") else [])
     expect_error = c["error"] in ("untagged", "weight-4d", "no-lr")
     try:
         groups, optimizer = call()
